@@ -164,6 +164,9 @@ def main(argv=None):
         from pyvc import replay
         return replay.replay_file(args.replay)
 
+    backend.start_pool(args.jobs)
+    import atexit
+    atexit.register(backend.stop_pool)
     from pyvc import report
     rep = report.Report(args.prop, tier, seed, entry)
     dbg = os.environ.get("VERIF_DEBUG")
